@@ -181,7 +181,57 @@ def c13(tier, seed):
             rep.violation("fresh-poller-within-grace", "a freshly created poller reports itself within the grace period although chronyd never answered", {"kind": "grace"})
         for v in res["violations"][:5]:
             rep.violation(v["signature"], v["what"], {"kind": "grace", "scenarios": [s for s in res["scenarios"] if s["violations"]]})
-    return daemon_common("C13", tier, seed, {"C13"}, extra=extra)
+    def extra2(rep):
+        extra(rep)
+        timelines(rep, tier)
+    return daemon_common("C13", tier, seed, {"C13"}, extra=extra2)
+
+
+def timelines(rep, tier):
+    """The real release binary against a scripted fake chronyd in a private /run; status timeline judged by Timeline.tla."""
+    binary = build_release_daemon()
+    fake = os.path.join(cb.build_harness(), "fakechrony")
+    scripts = [("outage-recover-hang", "answer:3,gone:8,answer:2,silent:11", 25),
+               ("startup-silence-then-unsync", "silent:7,answer:3,leap3:3,gone:7", 21)]
+    if tier == "thorough":
+        scripts += [("long-hang", "answer:2,silent:16,answer:3", 22), ("flapping", "answer:2,gone:3,answer:2,gone:6,answer:2", 16),
+                    ("never-there", "gone:9", 9), ("unsync-only", "leap3:6,gone:7", 14)]
+
+    def one(x):
+        name, script, secs = x
+        out = os.path.join(cb.WORK, f"tl_{name}.json")
+        if os.path.exists(out):
+            os.remove(out)
+        p = cb.run(["unshare", "-m", os.path.join(cb.ROOT, "bin", "ns_timeline.sh"), binary, fake, script, str(secs), out], timeout=secs + 60)
+        if not os.path.exists(out):
+            raise ToolError(f"timeline run failed (needs root + unshare -m): {p.stderr[-500:]}")
+        d = json.load(open(out))
+        os.remove(out)
+        if "error" in d:
+            raise ToolError(f"timeline run: {d}")
+        return name, script, secs, d
+    with ThreadPoolExecutor(max_workers=6) as ex:
+        runs = list(ex.map(one, scripts))
+    tml = os.path.join(cb.WORK, "tml_C13.ndjson")
+    with open(tml, "w") as f:
+        for i, (name, script, secs, d) in enumerate(runs):
+            ans = [{"t_ms": x["t_ms"] + 200, "sync": x["mode"] == "answer"} for x in d["fake"] if x["ev"] == "answered"]
+            f.write(json.dumps({"id": i, "samples": [{"t_ms": s["t_ms"], "status": s["status"]} for s in d["samples"]], "answers": ans, "end_ms": secs * 1000}) + "\n")
+    r = cb.tlc("Timeline", "Timeline.cfg", "tml_C13", workers=1, timeout=300, env={"TML": tml})
+    if checked(r.out) != len(runs):
+        raise ToolError(f"Timeline oracle evaluated {checked(r.out)} of {len(runs)} runs: {r.out[-800:]}")
+    bad = bad_ids(r.out, "BADTIMELINE")
+    rep.evaluations += len(runs)
+    rep.traces += len(runs) - len(bad)
+    rep.notes.append(f"whole process: {len(runs)} runs of the real release binary against a scripted fake chronyd, status timeline judged by Timeline.tla")
+    for i, (name, script, secs, d) in enumerate(runs):
+        if i == 0:
+            rep.sample({"script": script, "status_timeline": [(s["t_ms"], s["status"]) for s in d["samples"]]})
+        if not d["daemon_alive"]:
+            rep.violation("daemon-died", f"timeline '{name}': the daemon exited during the run", {"kind": "timeline", "run": d})
+        if i in bad:
+            rep.violation("status-timeline", f"timeline '{name}' ({script}): observed statuses {[(s['t_ms'], s['status']) for s in d['samples']]} with answers at {[a['t_ms'] for a in d['fake'] if a['ev'] == 'answered']} ms violate the grace schedule", {"kind": "timeline", "name": name, "script": script, "run": d})
+    os.remove(tml)
 
 
 # ------------------------------------------------------------------------------------------ C10
